@@ -59,7 +59,11 @@ def _worker(args):
     mod_name, seed, i, tier = args
     try:
         mod = __import__(mod_name)
+        core.IOFAULT_RUNS.clear()
         r = mod.run_case(seed, i, tier)
+        for (k, v) in core.IOFAULT_RUNS.items():     # runs executed with a write-level fault armed (preload/seed.c)
+            if k == "sw":
+                r.faults["stdout_short_writes(run)"] += v
         return (i, r, None)
     except Exception:
         return (i, None, traceback.format_exc())
